@@ -7,7 +7,7 @@
 Require Import Cirbo.Model.Base Cirbo.Model.Gate Cirbo.Model.Den Cirbo.Model.Circuit Cirbo.Model.Connect
         Cirbo.Model.Eval Cirbo.Model.Sem Cirbo.Model.History Cirbo.Model.WF.
 Require Import Cirbo.Proofs.WFEmplace Cirbo.Proofs.WFStep Cirbo.Proofs.SemExt Cirbo.Proofs.SemRename
-        Cirbo.Proofs.SemReplaceInputs Cirbo.Proofs.SemRemove Cirbo.Proofs.SemReplaceSub
+        Cirbo.Proofs.SemReplaceInputs Cirbo.Proofs.SemRemove Cirbo.Proofs.SemReplaceSub Cirbo.Proofs.SemEvaluate2
         Cirbo.Proofs.C19Final.
 
 (* ================= rename_gate ================= *)
@@ -62,6 +62,21 @@ Theorem C19_rename_truth_table : forall c c' old new, WF c -> rename_gate c old 
   forall a a', (forall l, In l (inputs c) -> aval a' (ren old new l) = aval a l) ->
   forall vs, Forall2 (Eval c' a') (outputs c') vs <-> Forall2 (Eval c a) (outputs c) vs.
 Proof. exact rename_gate_outputs_sem. Qed.
+
+(* the same at the entry points: FULL statement would be
+     get_truth_table c' = get_truth_table c   (as results);
+   proved: whenever both calls return, the tables (and the results of evaluate on every input
+   vector, Boolean or not) are equal.  Missing: that the call on c' returns whenever the call on
+   c does (completeness of the evaluators, the other half of C01). *)
+Theorem C19_rename_evaluate_partial : forall c old new c' vals r r',
+  WF c -> rename_gate c old new = Ok c' ->
+  evaluate c vals = Ok r -> evaluate c' vals = Ok r' -> r = r'.
+Proof. exact rename_gate_evaluate. Qed.
+
+Theorem C19_rename_get_truth_table_partial : forall c old new c' t t',
+  WF c -> rename_gate c old new = Ok c' ->
+  get_truth_table c = Ok t -> get_truth_table c' = Ok t' -> t = t'.
+Proof. exact rename_gate_truth_table. Qed.
 
 (* ================= replace_inputs ================= *)
 (* the state: constants without operands replace the chosen INPUT gates, the remaining inputs keep
